@@ -422,3 +422,139 @@ mw!(c08_write_target_then_user, { write_case(true, 1, true, true) });
 mw!(c08_write_zero_id_and_user, { write_case(true, 2, true, true) });
 // an unreadable SONAME is dropped (the error is discarded: this drop costs minutes under CBMC)
 mw!(c08_write_listed_no_soname, { write_case(true, 1, false, false) });
+
+// ---- "the module containing the program entry point is first" (PtraceDumper::enumerate_mappings) ----
+// Reading /proc/<pid>/maps is I/O (File::open returns a dummy handle, BufRead::read_line reports EOF), the
+// aggregation is C13's subject (scripted: three derived mappings at symbolic, ascending, disjoint
+// addresses).  The REAL enumerate_mappings decides which mapping goes first.
+pub static mut AGG: [(usize, usize); 3] = [(0, 0); 3];
+pub fn stub_file_open_dummy<P: AsRef<std::path::Path>>(_p: P) -> std::io::Result<std::fs::File> {
+    use std::os::fd::FromRawFd;
+    Ok(unsafe { std::fs::File::from_raw_fd(7) })
+}
+/// `BufRead::read_line` is a trait default method: the /proc/<pid>/maps "file" is empty (EOF at once), so the
+/// REAL `MemoryMaps::from_read` returns an empty list without touching the dummy file descriptor.
+/// closing the dummy descriptor is a no-op (close(2) is FFI)
+pub fn stub_ownedfd_drop(_this: &mut std::os::fd::OwnedFd) {}
+pub trait StubReadLine {
+    fn stub_read_line(&mut self, _buf: &mut String) -> std::io::Result<usize> {
+        Ok(0)
+    }
+}
+impl<T: ?Sized> StubReadLine for T {}
+pub fn stub_aggregate(maps: procfs_core::process::MemoryMaps, _gate: Option<crate::linux::auxv::AuxvType>) -> Result<Vec<MappingInfo>, crate::errors::MapsReaderError> {
+    core::mem::forget(maps);
+    let mut v = Vec::with_capacity(3);
+    unsafe {
+        v.push(mapping(AGG[0].0, AGG[0].1, MMPermissions::READ | MMPermissions::EXECUTE, Some("/lib/a.so")));
+        v.push(mapping(AGG[1].0, AGG[1].1, MMPermissions::READ | MMPermissions::EXECUTE, Some("/bin/x")));
+        v.push(mapping(AGG[2].0, AGG[2].1, MMPermissions::READ | MMPermissions::EXECUTE, Some("/lib/b.so")));
+    }
+    Ok(v)
+}
+#[kani::proof]
+#[kani::unwind(6)]
+#[kani::stub(std::fs::File::open, crate::verif::c08_modules::stub_file_open_dummy)]
+#[kani::stub(std::io::BufRead::read_line, crate::verif::c08_modules::StubReadLine::stub_read_line)]
+#[kani::stub(<std::os::fd::OwnedFd as core::ops::Drop>::drop, crate::verif::c08_modules::stub_ownedfd_drop)]
+#[kani::stub(crate::linux::maps_reader::MappingInfo::aggregate, crate::verif::c08_modules::stub_aggregate)]
+#[kani::stub(std::fmt::format, crate::verif::env::stub_format)]
+fn c08_entry_point_module_first() {
+    use crate::linux::auxv::{AuxvDumpInfo, DirectAuxvDumpInfo};
+    let mut s = [0usize; 3];
+    let mut z = [0usize; 3];
+    let mut cur: usize = kani::any();
+    kani::assume(cur >= 0x1000 && cur < (1usize << 40));
+    for i in 0..3 {
+        let gap: usize = kani::any();
+        let size: usize = kani::any();
+        kani::assume(gap <= 0x10000 && size >= 0x1000 && size <= 0x100000);
+        s[i] = cur + gap;
+        z[i] = size;
+        cur = s[i] + size;
+    }
+    unsafe { AGG = [(s[0], z[0]), (s[1], z[1]), (s[2], z[2])] };
+    let entry: u64 = kani::any();
+    let auxv = AuxvDumpInfo::from(DirectAuxvDumpInfo { program_header_count: 0, program_header_address: 0, linux_gate_address: 0, entry_address: entry });
+    let mut d = crate::linux::ptrace_dumper::PtraceDumper::verif_new(4242, Vec::new(), Vec::new(), false, 4096, auxv);
+    let r = d.verif_enumerate_mappings();
+    assert!(r.is_ok());
+    assert_eq!(d.mappings.len(), 3);
+    // which derived mapping holds the entry point?
+    let mut holder = usize::MAX;
+    for i in 0..3 {
+        if entry != 0 && (entry as usize) >= s[i] && (entry as usize) < s[i] + z[i] {
+            holder = i;
+        }
+    }
+    if holder != usize::MAX {
+        assert_eq!(d.mappings[0].start_address, s[holder], "the mapping containing the program entry point is first");
+    } else {
+        assert_eq!(d.mappings[0].start_address, s[0], "no entry point known / outside every mapping: order unchanged");
+    }
+    // nothing lost, nothing duplicated
+    for i in 0..3 {
+        let mut cnt = 0;
+        for j in 0..3 {
+            if d.mappings[j].start_address == s[i] && d.mappings[j].size == z[i] {
+                cnt += 1;
+            }
+        }
+        assert_eq!(cnt, 1, "every mapping is still listed exactly once");
+    }
+    kani::cover!(holder == 0, "the executable is already first");
+    kani::cover!(holder == 1, "the executable is second");
+    kani::cover!(holder == 2, "the executable is last");
+    kani::cover!(holder == usize::MAX, "entry point in no mapping");
+    core::mem::forget(d);
+}
+
+// ---- C02: SoVersion::parse (version from the mapped file name) never panics ----
+// The name is "a.so.1.2.<d><X><e>": d, e symbolic ASCII digits, X one character given as its UTF-8
+// bytes (1-, 2- or 3-byte form, content symbolic within the form).
+fn so_version_total<const XL: usize>() {
+    use std::os::unix::ffi::OsStrExt;
+    let d: u8 = kani::any();
+    let e: u8 = kani::any();
+    kani::assume(d >= b'0' && d <= b'9' && e >= b'0' && e <= b'9');
+    let x: [u8; XL] = kani::any();
+    match XL {
+        1 => kani::assume(x[0] >= b'a' && x[0] <= b'z'),
+        2 => kani::assume(x[0] >= 0xC2 && x[0] <= 0xDF && x[1] >= 0x80 && x[1] <= 0xBF),
+        _ => kani::assume(x[0] >= 0xE1 && x[0] <= 0xEC && x[1] >= 0x80 && x[1] <= 0xBF && x[2] >= 0x80 && x[2] <= 0xBF),
+    }
+    let mut name = [0u8; 16];
+    let head = b"a.so.1.2.";
+    name[..9].copy_from_slice(head);
+    name[9] = d;
+    for i in 0..XL {
+        name[10 + i] = x[i];
+    }
+    name[10 + XL] = e;
+    let n = 11 + XL;
+    let r = crate::linux::maps_reader::verif_so_version_parse(std::ffi::OsStr::from_bytes(&name[..n]));
+    match r {
+        Some((major, minor, patch, pre)) => {
+            assert!(major == 1 && minor == 2);
+            assert_eq!(patch, (d - b'0') as u32, "leading number of the third component");
+            assert_eq!(pre, (e - b'0') as u32, "trailing number of the third component");
+        }
+        None => panic!("a name with .so.<version> has a version"),
+    }
+    kani::cover!(true, "reached");
+}
+#[kani::proof]
+#[kani::unwind(20)]
+fn c02_so_version_ascii_separator() {
+    so_version_total::<1>();
+}
+#[kani::proof]
+#[kani::unwind(20)]
+fn c02_so_version_2byte_separator() {
+    so_version_total::<2>();
+}
+#[kani::proof]
+#[kani::unwind(20)]
+fn c02_so_version_3byte_separator() {
+    so_version_total::<3>();
+}
